@@ -66,8 +66,9 @@ def main(argv):
             if event == "call":
                 co = frame.f_code
                 fn = co.co_filename
-                if fn.startswith("/repo/happysimulator/"):
-                    funcs.add(fn[len("/repo/"):] + ":" + getattr(co, "co_qualname", co.co_name))
+                i = fn.find("/happysimulator/")
+                if i >= 0 and "/site-packages/" not in fn:
+                    funcs.add(fn[i + 1:] + ":" + getattr(co, "co_qualname", co.co_name))
 
         results = []
         for c in cases:
